@@ -42,8 +42,48 @@ def run(ctx):
         check_mt(ctx, facts, mt[0])
     else:
         ctx.missing("WHO-queue", "SequentialFutures::poll_next")
+    window_size(ctx, facts)
     chain(ctx, facts)
     parallel(ctx, facts)
+
+
+def _is_active_param(e):
+    """the constructor's first parameter (a NonZeroUsize) read as a number: active.get(), usize::from(active), .into()"""
+    e = flow.strip_casts(e)
+    while e[0] == "call" and re.search(r"(NonZero::<T>::get|NonZero::<usize>::get|From::from|Into::into)$", e[1]) and len(e[2]) == 1:
+        e = flow.strip_casts(e[2][0])
+    return e == ("arg", 1)
+
+
+def window_size(ctx, facts):
+    """`active` is the caller's promise about how far apart dependent tasks may be: a task may wait for one up to
+    active - 1 positions behind it.  The window the join really keeps (the deque's capacity / the spawner's limit) must be
+    that number itself, not something smaller derived from it (a size hint, a cap): otherwise the head waits for a task
+    that is never started and the join hangs."""
+    ctx.rule("WINDOW-size: SequentialFutures::new keeps `active` itself as the window: the capacity handed to VecDeque::with_capacity (local) / stored in `capacity` (multi-threaded) is active.get() of the constructor's parameter, nothing else flows into it")
+    is_active = _is_active_param
+    n = 0
+    for path, which in (("seq_join::local::SequentialFutures::<'_, S, F>::new", "local"), ("seq_join::multi_thread::SequentialFutures::<'_, S, F>::new", "mt")):
+        b = facts.bodies.get(path)
+        if b is None:
+            continue
+        n += 1
+        ctx.count(bodies=1)
+        if which == "local":
+            wc = flow.find_calls(b, re.compile(r"VecDeque::<T>::with_capacity$|VecDeque::<T, A>::with_capacity(_in)?$"))
+            ok = len(wc) == 1 and is_active(flow.expr_of(b, wc[0][1]["args"][0], max_depth=12))
+            ctx.ob("WINDOW-size", "local:capacity=active", ok, "the deque is created with capacity active.get()" if ok else f"the window of the single-threaded join is {str(flow.expr_of(b, wc[0][1]['args'][0], max_depth=8))[:160] if wc else 'not set with with_capacity'}, not the `active` parameter: fewer than `active` tasks are kept in flight, a head task that depends on a later one never completes", site_of(b, wc[0][0]) if wc else site_of(b))
+        else:
+            val = None
+            for bb, idx, st in b.iter_assigns():
+                r = st["r"]
+                if r["k"] == "agg" and "SequentialFutures" in (r.get("adt") or ""):
+                    names = [f["name"] for f in facts.adts[r["adt"]]["variants"][0]["fields"]]
+                    if "capacity" in names:
+                        val = (bb, flow.expr_of(b, r["ops"][names.index("capacity")], max_depth=12))
+            ok = val is not None and is_active(val[1])
+            ctx.ob("WINDOW-size", "mt:capacity=active", ok, "capacity = active.get()" if ok else "the multi-threaded join's `capacity` is not the `active` parameter itself", site_of(b, val[0]) if val else site_of(b))
+    ctx.floor("WINDOW-size", "SequentialFutures constructors", n, 1)
 
 
 def deque_ready_calls(cb):
@@ -254,7 +294,7 @@ def wake1(ctx, facts, b, dom, exception):
         src_polls = [pb for pb, pt in flow.find_calls(b, re.compile(r"Stream::poll_next$")) if "source" in flow.field_names_in(flow.expr_of(b, pt["args"][0]))]
         if exception == "local":
             ctor = facts.bodies.get("seq_join::local::SequentialFutures::<'_, S, F>::new")
-            cap_nonzero = bool(ctor) and "std::num::NonZero" in ctor.local_ty(1) and any(F.call_matches(t, re.compile(r"VecDeque::<T>::with_capacity$|VecDeque::<T, A>::with_capacity")) and "get" in str(flow.expr_of(ctor, t["args"][0])) for _, t in ctor.calls())
+            cap_nonzero = bool(ctor) and "std::num::NonZero" in ctor.local_ty(1) and any(F.call_matches(t, re.compile(r"VecDeque::<T>::with_capacity$|VecDeque::<T, A>::with_capacity")) and _is_active_param(flow.expr_of(ctor, t["args"][0], max_depth=12)) for _, t in ctor.calls())
         else:
             ctor = facts.bodies.get("seq_join::multi_thread::SequentialFutures::<'_, S, F>::new")
             cap_nonzero = bool(ctor) and "std::num::NonZero" in ctor.local_ty(1)
